@@ -298,4 +298,29 @@ for _o in list(OPS):
 op('s_clip', 'scalar', C17, ALL, 'sss', 's', 'xsimd::clip(s, t, w)', S.clip_scalar)
 op('clip', 'scalar', C17, ALL, 'bbb', 'b', 'xsimd::clip(a, b, c)', S.clip_batch)
 
+# ---- C16 complex batches ------------------------------------------------------------------------------------------
+C16 = ['C16']
+_Z1, _Z2, _Z3 = 'C_<{T}>(a, b)', 'C_<{T}>(c, d)', 'C_<{T}>(e, f)'
+for _w, _e, _np in (('add', '(%s + %s)' % (_Z1, _Z2), 4), ('sub', '(%s - %s)' % (_Z1, _Z2), 4), ('mul', '(%s * %s)' % (_Z1, _Z2), 4),
+                    ('div', '(%s / %s)' % (_Z1, _Z2), 4), ('neg', '(-%s)' % _Z1, 2),
+                    ('fma', 'xsimd::fma(%s, %s, %s)' % (_Z1, _Z2, _Z3), 6), ('fms', 'xsimd::fms(%s, %s, %s)' % (_Z1, _Z2, _Z3), 6),
+                    ('fnma', 'xsimd::fnma(%s, %s, %s)' % (_Z1, _Z2, _Z3), 6), ('fnms', 'xsimd::fnms(%s, %s, %s)' % (_Z1, _Z2, _Z3), 6)):
+    for _pt in ('re', 'im'):
+        op('c%s_%s' % (_w, _pt), 'complex', C16, FPS, 'b' * _np, 'b', '%s.%s()' % (_e, 'real' if _pt == 're' else 'imag'), S.complex_spec(_w, _pt))
+op('cnorm', 'complex', C16, FPS, 'bb', 'b', 'xsimd::norm(%s)' % _Z1, S.complex_spec('norm', 're'))
+op('ceq', 'complex', C16, FPS, 'bbbb', 'm', '(%s == %s)' % (_Z1, _Z2), lambda ty, a, b, c, d: [S.P('re == re && im == im', _T.and_(_T.fcmp('oeq', a, c), _T.fcmp('oeq', b, d)))])
+op('cneq', 'complex', C16, FPS, 'bbbb', 'm', '(%s != %s)' % (_Z1, _Z2), lambda ty, a, b, c, d: [S.P('re != re || im != im', _T.or_(_T.fcmp('une', a, c), _T.fcmp('une', b, d)))])
+op('creal', 'complex', C16, FPS, 'bb', 'b', 'xsimd::real(%s)' % _Z1, lambda ty, a, b: [S.P('real part', a)])
+op('cimag', 'complex', C16, FPS, 'bb', 'b', 'xsimd::imag(%s)' % _Z1, lambda ty, a, b: [S.P('imaginary part', b)])
+op('cconj_re', 'complex', C16, FPS, 'bb', 'b', 'xsimd::conj(%s).real()' % _Z1, lambda ty, a, b: [S.P('real part', a)])
+op('cconj_im', 'complex', C16, FPS, 'bb', 'b', 'xsimd::conj(%s).imag()' % _Z1, lambda ty, a, b: [S.P('negated imaginary part', _T.fneg(b))])
+op('cproj_re', 'complex', C16, FPS, 'bb', 'b', 'xsimd::proj(%s).real()' % _Z1, S.cproj('re'))
+op('cproj_im', 'complex', C16, FPS, 'bb', 'b', 'xsimd::proj(%s).imag()' % _Z1, S.cproj('im'))
+_cplx = lambda ty: 'std::complex<%s>' % ty.c
+for _al, _mode in (('a', 'aligned'), ('u', 'unaligned')):
+    for _pt in ('re', 'im'):
+        op('cload_%s_%s' % (_al, _pt), 'complex', C16, FPS, 'p', 'b', 'C_<{T}>::load_%s(p).%s()' % (_mode, 'real' if _pt == 're' else 'imag'),
+           WS.cload_spec(_al == 'a', _pt), whole=True, ptr_type=_cplx)
+    op('cstore_%s' % _al, 'complex', C16, FPS, 'bbP', 'void', 'C_<{T}>(a, b).store_%s(o)' % _mode, WS.cstore_spec(_al == 'a'), whole=True, ptr_type=_cplx)
+
 BY_NAME = dict((o.name, o) for o in OPS)
